@@ -49,6 +49,8 @@ func checkC18(e *Env) {
 	e.R.Explanation = "Decided (structural necessary conditions of C18): (E4) in the functions reachable from the serializers and verifiers, the iteration order of a Go map never reaches output: the body of every range-over-map only inserts into maps, appends to a slice, calls pure functions or fails; it never writes to a sink (encoder, writer, builder, buffer, hash) that lives outside the iteration; every slice filled in map order is passed to a normaliser (sort.*, or cbor.Encoder.EncodeMap, which sorts — C11) and used order-sensitively nowhere else; (E5) no library function outside package initialisation stores to a package-level variable, updates a package-level map, or passes memory derived from a package-level slice (including struct fields that alias one) to a writer (copy dst, io.ReadFull, binary.Put*, sort.*, append in place); append on a package-level slice is accepted only when it was built by a composite literal (cap == len, so append must reallocate) and on a caller's []byte parameter never (it can write into the caller's spare capacity — the GetWebBundleId defect); the serializers/verifiers do not store through memory reachable from their inputs and do not call http.Header mutators on them; no time.Now, math/rand, os.Getenv or os.Hostname is reachable from a serializer, crypto/rand.Reader only as the argument of SigningAlgorithmForPrivateKey. " +
 		"Not decided: data-race freedom in general (only these 'no shared write' conditions); byte identity across runs."
 	e.R.RuleText = "E4 map-order taint with normaliser rule; E5 effect analysis: writes whose target derives from a global or from an input parameter (forward derivation through loads, slices, fields, calls), append-aliasing rule, nondeterminism-source reachability"
+	// GROWVIEW: growable views over one base are disjoint (shared rule, growalias.go)
+	growableViewsDisjoint(e, 1, "")
 	roots := e.fns(pureEntries...)
 	scope := e.P.Reachable(e.P.VTA(), roots...)
 	for f := range scope {
